@@ -14,6 +14,7 @@ mod c07;
 mod c08;
 mod c09;
 mod c10;
+mod c11;
 mod st;
 
 use common::*;
@@ -43,6 +44,7 @@ fn main() {
     "C08" => c08::run(&ctx),
     "C09" => c09::run(&ctx),
     "C10" => c10::run(&ctx),
+    "C11" => c11::run(&ctx),
     _ => {
       eprintln!("unknown property {}", prop);
       std::process::exit(2);
